@@ -279,13 +279,13 @@ def run(ctx, rep):
             pass
     for t in texts:
         cases.append({"src": t, "kind": "corpus"})
-    n_soup = ctx.n(25000, 1500000)
+    n_soup = ctx.n(25000, 250000)
     for _ in range(n_soup):
         cases.append({"src": gen_soup(rng), "kind": "soup"})
-    n_host = ctx.n(20000, 1200000)
+    n_host = ctx.n(20000, 200000)
     for _ in range(n_host):
         cases.append({"src": gen_hostile(rng), "kind": "hostile"})
-    per_file = ctx.n(40, 600)
+    per_file = ctx.n(40, 200)
     for t in texts:
         for cut in truncations(t, rng, per_file):
             cases.append({"src": cut, "kind": "trunc"})
